@@ -204,12 +204,19 @@ fn partial_wmcs(
     let init_compilation = start.elapsed();
 
     for model in partials {
-        let num_conditioned = model.true_assignments.len() + model.false_assignments.len();
         let conditioned = builder.condition_model(bdd, model);
-        let smoothed = builder.smooth(conditioned, num_vars - num_conditioned);
+        let smoothed = builder.smooth(conditioned, num_vars);
 
-        let mc = smoothed.unsmoothed_wmc(&unweighted_params).value();
-        let wmc = smoothed.unsmoothed_wmc(params);
+        // the conditioned variables no longer occur in the diagram; their
+        // don't-care nodes must contribute exactly one
+        let mut mc_params = unweighted_params.clone();
+        let mut wmc_params = params.clone();
+        for lit in model.assignment_iter() {
+            mc_params.set_weight(lit.label(), FiniteField::one(), FiniteField::zero());
+            wmc_params.set_weight(lit.label(), RealSemiring::one(), RealSemiring::zero());
+        }
+        let mc = smoothed.unsmoothed_wmc(&mc_params).value();
+        let wmc = smoothed.unsmoothed_wmc(&wmc_params);
 
         let res = PartialWmcResult {
             partial_model: serialize_partial_model(model, inverse_mapping),
